@@ -51,6 +51,24 @@ def semantic_equal_tags(prog, model):
     return out, fn
 
 
+def _folds_bytes_of_param(prog, callee):
+    """a helper of hash.c that accumulates `P[i]` for a char* parameter P"""
+    g = prog.func(callee or "")
+    if g is None or not g.blocks or g.unit.name != "hash.c" or callee == "hash_one":
+        return False
+    cps = {g.vars[v]["n"] for v in g.params if (g.var_type(v) or "").replace("const ", "") in
+           ("char *", "unsigned char *", "signed char *")}
+    if not cps:
+        return False
+    for nd in g.nodes:
+        if nd["k"] == "bin" and nd["o"] in ("^=", "+=", "*=", "|=", "="):
+            for x in g.subtree(g.strip(nd["c"][1])):
+                xn = g.nodes[x]
+                if xn["k"] == "idx" and g.txt(g.strip(xn["c"][0])) in cps:
+                    return True
+    return False
+
+
 def raw_hashed_tags(prog, model):
     """tags of `obj` at the statements of hash_one that fold raw trailing bytes into the hash"""
     fn = prog.func("hash_one")
@@ -78,6 +96,11 @@ def raw_hashed_tags(prog, model):
                     if bt in ("char *", "unsigned char *", "signed char *"):
                         ka.probes[i] = oref
                         sites.append(i)
+    # ... or a call that hands such a pointer to a helper which folds the bytes behind one of its char* parameters
+    for i, nd in enumerate(fn.nodes):
+        if nd["k"] == "call" and _folds_bytes_of_param(prog, nd.get("o")):
+            ka.probes[i] = oref
+            sites.append(i)
     if not sites:
         raise AnalysisBroken("anchor vanished: hash_one no longer folds raw bytes (rule C15.a needs re-reading)")
     ka.run()
